@@ -92,7 +92,8 @@ def run_property(pid, tier, seed, jobs):
         nval = int(os.environ.get("VERIF_VALIDATE_PER_CASE", 2 if tier == "quick" else 6))
         vfuts = {}
         for cname, pc in per_case.items():
-            okp = [p for p in pc["paths"] if p["status"] == "ok" and p.get("pc_model") is not None]
+            okp = [p for p in pc["paths"] if p["status"] == "ok" and p.get("pc_model") is not None
+                   and not any(vr.get("kind") == "exception" for vr in p["violations"])]
             rng.shuffle(okp)
             for p in okp[:nval]:
                 skip = [o["name"] for o in p["obligations"] if o["verdict"] != "unsat"]
